@@ -8,9 +8,14 @@ import itertools
 import json
 import subprocess
 
-from ..cfg import CFG
+from ..cfg import CFG, cond_strings
+from ..paths import path_variants
+from ..tutil import (bound_args, callee_of, concat_parts, fuse_comps,
+                     simp)
 from ..core import AnalysisError, const_value
-from ..defuse import DefUse, Terms, show, walk_term
+from ..defuse import DefUse, Terms, show, specialise, walk_term
+from ..inline import inline_nested_closures
+from ..tutil import TTUnknown, tt_eval
 
 EXPLANATION = (
     "Static analysis of parsers.pin.read_percolator / "
@@ -98,51 +103,65 @@ class _Arith:
 
 
 def _identifier_chunks(ctx, f):
+    prog = ctx.prog
     p_data, p_id, p_cs = f.params
-    ifs = [s for s in f.node.body if isinstance(s, ast.If)]
-    ctx.require(len(ifs) == 1, f"{f.qual}: expected a single if/else")
-    s = ifs[0]
-    pre = [x for x in f.node.body if isinstance(x, ast.Assign)
-           and x.lineno < s.lineno]
+    CC = "mokapot.utils.create_chunks"
 
-    def branch_kind(body):
-        rets = [x for x in body if isinstance(x, ast.Return)]
-        if len(rets) != 1:
-            return None
-        # inline simple local assignments of the branch
-        loc = {ast.unparse(a.targets[0]): ast.unparse(a.value) for a in body
-               if isinstance(a, ast.Assign)}
-        txt = ast.unparse(rets[0].value)
-        for k, v in loc.items():
-            txt = txt.replace(k, f"({v})")
-        txt = txt.replace(" ", "")
-        if txt in (f"create_chunks(({p_data}+{p_id}),{p_cs})",
-                   f"create_chunks({p_data}+{p_id},{p_cs})"):
+    def kind_of(t):
+        b = bound_args(prog, t)
+        if b is not None and t[1] == CC and b.get("chunk_size") == (
+                "param", p_cs) and b.get("data") == (
+                "bin", "+", ("param", p_data), ("param", p_id)):
             return "together"
-        if txt == f"create_chunks({p_data},{p_cs})+[{p_id}]":
-            return "separate"
+        if t[0] == "bin" and t[1] == "+" and t[3] == (
+                "list", (("param", p_id),)):
+            b = bound_args(prog, t[2])
+            if b is not None and t[2][1] == CC and b.get("data") == (
+                    "param", p_data) and b.get("chunk_size") == (
+                    "param", p_cs):
+                return "separate"
         return None
 
-    kt, ke = branch_kind(s.body), branch_kind(s.orelse)
-    ctx.check({kt, ke} == {"together", "separate"},
-              "C10a-branch-forms", f,
-              "one branch chunks features + identifier together, the other "
+    variants = []
+    for v in path_variants(f.node):
+        vT = Terms(DefUse(prog, f, fnode=v.fnode))
+        rs = vT.returns()
+        if not rs:
+            continue
+        ctx.require(len(rs) == 1, f"{f.qual}: a path with several returns")
+        variants.append((v, kind_of(rs[0][1]), rs[0][1]))
+    kinds = [k for _v, k, _t in variants]
+    ctx.check(set(kinds) == {"together", "separate"}, "C10a-branch-forms", f,
+              "every path either chunks features + identifier together or "
               "keeps the identifier as a chunk of its own",
-              f"then-branch: {kt}, else-branch: {ke}", node=s)
-    if {kt, ke} != {"together", "separate"}:
+              "paths return " + str([k or show(t, 100)
+                                     for _v, k, t in variants]),
+              node=f.node)
+    if set(kinds) != {"together", "separate"}:
         return
     bad = []
     n_eval = 0
     for n_data, n_id, c in itertools.product(range(0, 81), range(1, 6),
                                              range(1, 26)):
-        env = {f"len({p_data})": n_data, f"len({p_id})": n_id, p_cs: c}
-        ar = _Arith(env)
-        for a in pre:
-            env[ast.unparse(a.targets[0])] = ar.ev(a.value)
-        g = bool(ar.ev(s.test))
         n_eval += 1
-        taken = kt if g else ke
-        if taken == "together":
+        taken = []
+        for v, k, _t in variants:
+            env = {f"len({p_data})": n_data, f"len({p_id})": n_id, p_cs: c}
+            ar = _Arith(env)
+            for st in v.fnode.body:
+                if isinstance(st, ast.Assign) and len(
+                        st.targets) == 1 and isinstance(
+                            st.targets[0], ast.Name):
+                    try:
+                        env[st.targets[0].id] = ar.ev(st.value)
+                    except (KeyError, AnalysisError, TypeError):
+                        pass        # not an integer quantity
+            if all(bool(ar.ev(t)) == o for t, o in v.conds):
+                taken.append(k)
+        ctx.require(len(taken) == 1, f"{f.qual}: {len(taken)} paths taken "
+                    f"for (features, identifier width, chunk size) = "
+                    f"{(n_data, n_id, c)}")
+        if taken[0] == "together":
             n = n_data + n_id
             # create_chunks cuts at multiples of c: identifier occupies
             # positions n - n_id .. n - 1
@@ -151,28 +170,40 @@ def _identifier_chunks(ctx, f):
                 bad.append((n_data, n_id, c))
     ctx.extra["identifier_guard_grid"] = {"evaluations": n_eval,
                                           "violations": len(bad)}
+    guard = " / ".join(
+        " and ".join(s_ for t, o in v.conds for s_ in cond_strings(t, o))
+        for v, k, _t in variants if k == "together")
     ctx.check(not bad, "C10a-identifier-in-one-chunk", f,
               f"for all {n_eval} (features, identifier width, chunk size) "
               "triples the identifier columns end up in a single column "
               "chunk",
-              f"guard '{ast.unparse(s.test)}' sends e.g. (features, "
+              f"guard '{guard}' sends e.g. (features, "
               f"identifier width, chunk size) = {bad[:4]} to the chunk-"
               "together branch although a chunk boundary cuts through the "
               f"identifier columns ({len(bad)} triples): no chunk then "
               "holds all spectrum/label columns and parsing fails with 'No "
-              "objects to concatenate'", node=s)
+              "objects to concatenate'", node=f.node)
     # call site
     rp = ctx.prog.func(PIN + "read_percolator")
     calls = [n for n in ast.walk(rp.node) if isinstance(n, ast.Call)
              and ast.unparse(n.func) == "create_chunks_with_identifier"]
     ctx.require(len(calls) == 1, f"{rp.qual}: call not found")
-    b = ctx.prog.bind(f, calls[0])
-    got = {k: ast.unparse(v) for k, v in b.items()}
-    ok = got == {p_data: "features", p_id: "spectra + [labels]",
-                 p_cs: "CHUNK_SIZE_COLUMNS_FOR_DROP_COLUMNS"}
+    rT = Terms(DefUse(prog, rp))
+    b = {k: rT.of(v) for k, v in prog.bind(f, calls[0]).items()}
+    ctor = [n for n in ast.walk(rp.node) if isinstance(n, ast.Call)
+            and ast.unparse(n.func) == "OnDiskPsmDataset"]
+    ctx.require(len(ctor) == 1, f"{rp.qual}: dataset constructor not found")
+    kw = {k.arg: rT.of(k.value) for k in ctor[0].keywords}
+    idt = b.get(p_id)
+    ok = (idt is not None and idt == ("bin", "+", kw.get("spectrum_columns"),
+                                      ("list", (kw.get("target_column"),)))
+          and b.get(p_cs) == (
+              "name", "mokapot.constants.CHUNK_SIZE_COLUMNS_FOR_DROP_COLUMNS")
+          and b.get(p_data, ("x",))[0] == "comp")
     ctx.check(ok, "C10a-call-site", rp,
               "features are chunked with the spectrum key + label as the "
-              "identifier", f"{got}", node=calls[0])
+              "identifier",
+              str({k: show(v, 120) for k, v in b.items()}), node=calls[0])
 
 
 def _create_chunks(ctx, f):
@@ -276,25 +307,113 @@ def _helpers(ctx):
         ctx.check(okc, "C10c-lookup-wrappers", f,
                   f"{name} searches for the requested name",
                   f"searches for {first}", node=calls[0])
-    # find_column itself
-    cfg = CFG(fc.node)
-    cmp_defs = [n for n in ast.walk(fc.node)
-                if isinstance(n, ast.FunctionDef) and n is not fc.node]
-    low = [d for d in cmp_defs if ".lower() ==" in ast.unparse(d)
-           and any(ast.unparse(g[0]) == "ignore_case" and g[1]
-                   for g in cfg.guards(d))]
-    ctx.check(len(low) == 1, "C10c-case-insensitive", fc,
-              "with ignore_case both names are lower-cased before "
-              "comparison", "case-insensitive comparison missing",
-              node=fc.node)
-    raises = [n for n in ast.walk(fc.node) if isinstance(n, ast.Raise)]
-    gtxt = [[ast.unparse(g[0]) for g in cfg.guards(r) if g[1]]
-            for r in raises]
-    ok = ["required and len(found_columns) == 0"] in gtxt and [
-        "len(found_columns) > 1", "unique"] in gtxt
-    ctx.check(ok, "C10c-missing-or-ambiguous-raises", fc,
-              "a missing required column and an ambiguous unique column "
-              "raise", f"raise guards: {gtxt}", node=fc.node)
+    # find_column itself: one specialised copy per value of ignore_case (the
+    # flag may pick one of two nested comparison functions, or sit inside
+    # conditional expressions - both are resolved before terms are built)
+    p_col, p_cols = fc.params[0], fc.params[1]
+    for ic in (True, False):
+        fn = inline_nested_closures(specialise(fc.node, {"ignore_case": ic}))
+        vdu = DefUse(prog, fc, fnode=fn)
+        vT = Terms(vdu)
+        vcfg = CFG(fn)
+        rets = [(r, vT.of(r.value) if r.value is not None
+                 else ("const", None))
+                for r in ast.walk(fn) if isinstance(r, ast.Return)]
+        raises = [r for r in ast.walk(fn) if isinstance(r, ast.Raise)]
+        found = set()
+        for _r, t in rets:
+            for x in walk_term(t):
+                if isinstance(x, tuple) and x and x[0] == "comp" and \
+                        len(x[3]) == 1 and x[3][0][1] == ("param", p_cols) \
+                        and x[2] == ("elem", ("param", p_cols)):
+                    found.add(x)
+        ctx.require(len(found) == 1, f"{fc.qual}: list of matching columns "
+                    f"not recognised (ignore_case={ic})")
+        FOUND = next(iter(found))
+        conds = FOUND[3][0][2]
+        el, cl = ("elem", ("param", p_cols)), ("param", p_col)
+
+        def low(x):
+            return ("mcall", x, "lower", (), ())
+
+        want = {low(el), low(cl)} if ic else {el, cl}
+        ok = len(conds) == 1 and conds[0][0] == "cmp" and \
+            conds[0][1] == "==" and {conds[0][2], conds[0][3]} == want
+        ctx.check(ok, "C10c-case-insensitive", fc,
+                  "with ignore_case both names are lower-cased before "
+                  "comparison; without, they are compared as they are",
+                  f"ignore_case={ic}: a column matches when "
+                  f"{[show(c, 120) for c in conds]}", node=fc.node)
+        # raises and results over required x unique x number of matches
+        LEN = ("call", "builtins.len", (FOUND,), ())
+
+        def atoms_for(r, u, n):
+            def atoms(t):
+                if t == ("param", "required"):
+                    return r
+                if t == ("param", "unique"):
+                    return u
+                if t == LEN:
+                    return n
+                if t == FOUND:
+                    return ["m"] * n
+                raise KeyError(t)
+            return atoms
+
+        def conds_of(node):
+            out = []
+            for t, o in vcfg.necessary_conditions(node):
+                out.append((vT.of(t), o))
+            return out
+
+        rc = [conds_of(r) for r in raises]
+        tc = [(conds_of(r), t) for r, t in rets]
+        bad = []
+        try:
+            for r in (True, False):
+                for u in (True, False):
+                    for n in (0, 1, 2, 3):
+                        at = atoms_for(r, u, n)
+                        rej = any(all(bool(tt_eval(t, at)) == o
+                                      for t, o in cs) for cs in rc)
+                        want_rej = (r and n == 0) or (u and n > 1)
+                        if rej != want_rej:
+                            bad.append(("raise", r, u, n, rej))
+                            continue
+                        if rej:
+                            continue
+                        hit = [t for cs, t in tc
+                               if all(bool(tt_eval(c, at)) == o
+                                      for c, o in cs)]
+                        res = None
+                        if len(hit) == 1:
+                            res = hit[0]
+                            while res[0] == "ifexp":
+                                res = res[2] if tt_eval(res[1], at) \
+                                    else res[3]
+                        if u:
+                            exp = ("sub", FOUND, ("const", 0)) if n > 0 \
+                                else ("const", None)
+                        else:
+                            exp = FOUND
+                        if res != exp:
+                            bad.append(("result", r, u, n,
+                                        show(res, 60) if res else None))
+        except (TTUnknown, KeyError) as e:
+            bad.append(("cannot evaluate", str(e)[:100]))
+        ctx.check(not [b_ for b_ in bad if b_[0] != "result"],
+                  "C10c-missing-or-ambiguous-raises", fc,
+                  "a missing required column and an ambiguous unique column "
+                  "raise, nothing else does (16 valuations of required x "
+                  "unique x number of matches)",
+                  f"(kind, required, unique, matches, got): {bad[:4]}",
+                  node=fc.node)
+        ctx.check(not [b_ for b_ in bad if b_[0] == "result"],
+                  "C10c-lookup-result", fc,
+                  "unique lookups return the single match (None when there "
+                  "is none), non-unique lookups the list of matches",
+                  f"(kind, required, unique, matches, got): {bad[:4]}",
+                  node=fc.node)
 
 
 RESERVED = {"specid": "specid", "peptides": "peptide", "proteins":
@@ -314,115 +433,252 @@ ROLES = {
 
 
 def _read_percolator(ctx, f):
-    asg = {}
-    for n in f.node.body:
-        if isinstance(n, ast.Assign) and isinstance(n.targets[0], ast.Name):
-            asg.setdefault(n.targets[0].id, []).append(n)
-    for var, name in RESERVED.items():
-        a = asg.get(var, [])
-        ok = len(a) == 1 and ast.unparse(a[0].value) == \
-            f"find_required_column('{name}', columns)"
-        ctx.check(ok, "C10c-reserved-lookups", f,
-                  f"'{name}' is a required, case-insensitive lookup",
-                  f"{var} = {[ast.unparse(x.value) for x in a]}",
-                  node=f.node)
-    opt = {"filename": ("filename_column", "filename"),
-           "calcmass": ("calcmass_column", "calcmass"),
-           "expmass": ("expmass_column", "expmass"),
-           "ret_time": ("rt_column", "ret_time")}
-    for var, (par, default) in opt.items():
-        a = asg.get(var, [])
-        ok = len(a) == 1 and ast.unparse(a[0].value) == \
-            f"find_optional_column({par}, columns, '{default}')"
-        ctx.check(ok, "C10c-optional-lookups", f,
-                  f"'{default}' is an optional lookup (explicit name or "
-                  "case-insensitive default)",
-                  f"{var} = {[ast.unparse(x.value) for x in a]}",
-                  node=f.node)
-    sp = asg.get("spectra", [])
-    ok = len(sp) == 1 and ast.unparse(sp[0].value) == \
-        "[c for c in [filename, scan, ret_time, expmass] if c is not None]"
-    ctx.check(ok, "C10c-spectrum-key", f,
-              "spectrum key = the available ones of file, scan, retention "
-              "time, mass - in that order",
-              f"{[ast.unparse(x.value) for x in sp]}", node=f.node)
-    ft = asg.get("features", [])
-    ok = len(ft) == 1 and ast.unparse(ft[0].value) == \
-        "[c for c in columns if c not in nonfeat]"
-    ctx.check(ok, "C10c-features-are-non-reserved", f,
-              "features are the columns that are not reserved, in file "
-              "order", f"{[ast.unparse(x.value) for x in ft]}", node=f.node)
-    nf = asg.get("nonfeat", [])
-    ok = len(nf) == 1 and ast.unparse(nf[0].value) == \
-        "[specid, scan, peptides, proteins, labels]"
-    ctx.check(ok, "C10c-reserved-set", f,
-              "the reserved set starts as id, scan, peptide, proteins, "
-              "label", f"{[ast.unparse(x.value) for x in nf]}", node=f.node)
-    # final feature list: unconditional filter by the NaN report
+    """Everything is read off the terms that reach the OnDiskPsmDataset
+    constructor (the sink): local names, temporaries, loop-versus-
+    comprehension and the order of independent statements do not matter."""
+    prog = ctx.prog
+    du = DefUse(prog, f)
+    T = Terms(du)
     cfg = CFG(f.node)
-    fcs = [n for n in ast.walk(f.node) if isinstance(n, ast.Assign)
-           and ast.unparse(n.targets[0]) == "_feature_columns"]
-    ok = len(fcs) == 1 and not cfg.guards(fcs[0]) and ast.unparse(
-        fcs[0].value).replace("\n", "") == (
-        "tuple([feature for feature in features if feature not in "
-        "features_to_drop])")
-    ctx.check(ok, "C10c-nan-features-dropped", f,
-              "the final features are - unconditionally - the features not "
-              "reported with missing values",
-              f"_feature_columns = "
-              f"{[ast.unparse(x.value)[:90] for x in fcs]} under "
-              f"{[[ast.unparse(g[0]) for g in cfg.guards(x)] for x in fcs]}"
-              ": a reported column can stay among the features",
-              node=fcs[0] if fcs else f.node)
-    # the NaN report: flatten of the non-empty task results
-    ftd = asg.get("features_to_drop", [])
-    txts = [ast.unparse(x.value).replace("\n", "") for x in ftd]
-    ok = len(ftd) == 3 and txts[1] == \
-        "[drop for drop in features_to_drop if drop]" and txts[2] == \
-        "flatten(features_to_drop)"
-    ctx.check(ok, "C10c-nan-report-complete", f,
-              "the report of NaN columns is the concatenation of every "
-              "column chunk's report", f"{txts}", node=f.node)
-    # dataset roles
+    H = "mokapot.parsers.helpers."
     ctor = [n for n in ast.walk(f.node) if isinstance(n, ast.Call)
             and ast.unparse(n.func) == "OnDiskPsmDataset"]
     ctx.require(len(ctor) == 1, f"{f.qual}: dataset constructor not found")
-    got = {k.arg: ast.unparse(k.value) for k in ctor[0].keywords}
-    for formal, src in ROLES.items():
-        ctx.check(got.get(formal) == src, "C10c-dataset-roles", f,
-                  f"OnDiskPsmDataset({formal}=...) <- {src}",
-                  f"{formal} = {got.get(formal)}", node=ctor[0])
-    # spectra dataframe: concatenation of the collected identifier chunks,
-    # labels converted
-    ds = asg.get("df_spectra", [])
-    ok = len(ds) == 1 and ast.unparse(ds[0].value).replace("\n", "") == \
-        "convert_targets_column(pd.concat(df_spectra_list), " \
-        "target_column=labels)"
-    ctx.check(ok, "C10c-one-entry-per-row", f,
-              "the dataset's spectrum/label table is the concatenation of "
-              "all collected row chunks with converted labels",
-              f"{[ast.unparse(x.value)[:100] for x in ds]}", node=f.node)
-    # every column chunk is scanned
+    dsf = prog.func("mokapot.dataset.OnDiskPsmDataset.__init__")
+    got = {k: fuse_comps(simp(T.of(v)))
+           for k, v in prog.bind(dsf, ctor[0]).items()}
+    COLS = got.get("columns")
+    ctx.require(COLS is not None and COLS[0] == "mcall"
+                and COLS[2] == "get_column_names",
+                f"{f.qual}: column list does not come from the reader")
+
+    def req(name):
+        return {"col": ("const", name), "columns": COLS}
+
+    def opt(par, default):
+        return {"col": ("param", par), "columns": COLS,
+                "default": ("const", default)}
+
+    def is_lookup(t, fn, want):
+        b = bound_args(prog, t) if t is not None else None
+        return b is not None and t[1] == H + fn and b == want
+
+    roles = {
+        "target_column": ("find_required_column", req("label")),
+        "peptide_column": ("find_required_column", req("peptide")),
+        "protein_column": ("find_required_column", req("proteins")),
+        "scan_column": ("find_required_column", req("scannr")),
+        "specId_column": ("find_required_column", req("specid")),
+        "filename_column": ("find_optional_column",
+                            opt("filename_column", "filename")),
+        "calcmass_column": ("find_optional_column",
+                            opt("calcmass_column", "calcmass")),
+        "expmass_column": ("find_optional_column",
+                           opt("expmass_column", "expmass")),
+        "rt_column": ("find_optional_column", opt("rt_column", "ret_time")),
+        "charge_column": ("find_optional_column",
+                          opt("charge_column", "charge_column")),
+    }
+    for formal, (fn, want) in roles.items():
+        t = got.get(formal)
+        rule = "C10c-reserved-lookups" if fn == "find_required_column" \
+            else "C10c-optional-lookups"
+        ctx.check(is_lookup(t, fn, want), rule, f,
+                  f"OnDiskPsmDataset({formal}=...) is the "
+                  + ("required, case-insensitive lookup of "
+                     f"{want['col'][1]!r}" if fn == "find_required_column"
+                     else f"optional lookup ({want['col'][1]} or "
+                     f"{want['default'][1]!r})"),
+                  f"{formal} = {show(t, 160) if t else None}", node=ctor[0])
+    ctx.check(got.get("filename") == ("param", f.params[0]),
+              "C10c-dataset-roles", f,
+              "the dataset remembers the file it was parsed from",
+              f"filename = {show(got.get('filename'), 80)}", node=ctor[0])
+
+    def lookup(fn, want):
+        return next((t for t in got.values() if is_lookup(t, fn, want)),
+                    None)
+
+    L = {k: got.get(k) for k in roles}
+    # ---- spectrum key
+    sp = got.get("spectrum_columns")
+    want_list = ("list", (L["filename_column"], L["scan_column"],
+                          L["rt_column"], L["expmass_column"]))
+    ok = (sp is not None and sp[0] == "comp" and len(sp[3]) == 1
+          and sp[3][0][1] == want_list and sp[2] == ("elem", want_list)
+          and sp[3][0][2] == (("cmp", "is not", ("elem", want_list),
+                               ("const", None)),))
+    ctx.check(ok, "C10c-spectrum-key", f,
+              "spectrum key = the available ones of file, scan, retention "
+              "time, mass - in that order",
+              f"spectrum_columns = {show(sp, 300) if sp else None}",
+              node=ctor[0])
+    # ---- reserved set
+    NONFEAT = got.get("metadata_columns")
+
+    def spine(t):
+        if t[0] == "phi":
+            return [y for x in t[1] for y in spine(x)]
+        if t[0] == "bin" and t[1] == "+":
+            return spine(t[2])
+        if t[0] == "mut":
+            return spine(t[1])
+        if t[0] == "rec":
+            return []
+        return [t]
+
+    five = ("list", (L["specId_column"], L["scan_column"],
+                     L["peptide_column"], L["protein_column"],
+                     L["target_column"]))
+    sp_n = spine(NONFEAT) if NONFEAT else []
+    ctx.check(bool(sp_n) and all(x == five for x in sp_n),
+              "C10c-reserved-set", f,
+              "the reserved set starts as id, scan, peptide, proteins, "
+              "label", f"metadata_columns starts as "
+              f"{[show(x, 200) for x in sp_n[:2]]}", node=ctor[0])
+    # ---- features: file columns that are not reserved, minus the NaN
+    # report, unconditionally
+    fc = got.get("feature_columns")
+    inner = fc
+    if inner is not None and inner[0] == "call" and \
+            inner[1] == "builtins.tuple" and len(inner[2]) == 1:
+        inner = inner[2][0]
+    ok_f = ok_d = False
+    DROP = FEATS = None
+    if inner is not None and inner[0] == "comp" and len(inner[3]) == 1:
+        FEATS = inner[3][0][1]
+        conds = inner[3][0][2]
+        if inner[2] == ("elem", FEATS) and len(conds) == 1 and \
+                conds[0][0] == "cmp" and conds[0][1] == "not in" and \
+                conds[0][2] == ("elem", FEATS):
+            DROP = conds[0][3]
+            ok_d = True
+        if FEATS[0] == "comp" and len(FEATS[3]) == 1 and \
+                FEATS[3][0][1] == COLS and FEATS[2] == ("elem", COLS):
+            c2 = FEATS[3][0][2]
+            ok_f = len(c2) == 1 and c2[0][:3] == (
+                "cmp", "not in", ("elem", COLS)) and c2[0][3] == NONFEAT
+    ctx.check(ok_f, "C10c-features-are-non-reserved", f,
+              "features are the columns that are not reserved, in file "
+              "order", f"features = {show(FEATS, 200) if FEATS else None}",
+              node=ctor[0])
+    ctx.check(ok_d,
+              "C10c-nan-features-dropped", f,
+              "the final features are - unconditionally - the features not "
+              "reported with missing values",
+              f"feature_columns = {show(fc, 200) if fc else None}"
+              + ": a reported column can stay among the features",
+              node=ctor[0])
+    # ---- the NaN report: flatten of the non-empty task results
+    TASKS = None
+    ok_r = False
+    if DROP is not None:
+        b = bound_args(prog, DROP)
+        if b is not None and DROP[1] == "mokapot.utils.flatten" and \
+                len(b) == 1:
+            src = list(b.values())[0]
+            if src[0] == "comp" and len(src[3]) == 1 and \
+                    src[2] == ("elem", src[3][0][1]) and \
+                    src[3][0][2] == (("elem", src[3][0][1]),):
+                TASKS = src[3][0][1]
+                ok_r = TASKS[0] == "callv" and len(TASKS[2]) == 1
+    ctx.check(ok_r, "C10c-nan-report-complete", f,
+              "the report of NaN columns is the concatenation of every "
+              "column chunk's (non-empty) report",
+              f"report = {show(DROP, 200) if DROP else None}", node=ctor[0])
+    # ---- level columns and column types
+    lv = got.get("level_columns")
+
+    def fcols(name):
+        return {"col": ("const", name), "columns": COLS}
+
+    parts = concat_parts(lv) if lv else []
+    ok_l = len(parts) == 4 and parts[0] == ("item", L["peptide_column"]) \
+        and all(p[0] == "splice" and is_lookup(p[1], "find_columns",
+                                                fcols(nm))
+                for p, nm in zip(parts[1:], ("modifiedpeptide", "precursor",
+                                             "peptidegroup")))
+    ctx.check(ok_l, "C10c-dataset-roles", f,
+              "level columns = peptide column, then modified-peptide, "
+              "precursor and peptide-group columns",
+              f"level_columns = {show(lv, 200) if lv else None}",
+              node=ctor[0])
+    mt = got.get("metadata_column_types")
+    ok_m = False
+    if mt is not None and mt[0] == "comp" and len(mt[3]) == 1 and \
+            not mt[3][0][2] and mt[3][0][1] == NONFEAT:
+        e = mt[2]
+        ok_m = (e[0] == "sub" and e[1][0] == "mcall"
+                and e[1][2] == "get_column_types" and e[1][1] == COLS[1]
+                and e[2] == ("mcall", COLS, "index",
+                             (("elem", NONFEAT),), ()))
+    ctx.check(ok_m, "C10c-dataset-roles", f,
+              "metadata column types are looked up by the position of each "
+              "metadata column in the file header",
+              f"metadata_column_types = {show(mt, 200) if mt else None}",
+              node=ctor[0])
+    # ---- every column chunk is scanned
     task = [n for n in ast.walk(f.node) if isinstance(n, ast.Call)
             and isinstance(n.func, ast.Call) and "delayed(drop_missing" in
             ast.unparse(n.func)]
     ok = False
+    LIST_defs = None
+    why = "scan task not found"
     if len(task) == 1:
-        kw = {k.arg: ast.unparse(k.value) for k in task[0].keywords}
-        gen = None
-        for n in ast.walk(f.node):
-            if isinstance(n, ast.GeneratorExp) and n.elt is task[0]:
-                gen = n
-        ok = (kw == {"reader": "reader", "column": "c",
-                     "spectra": "spectra + [labels]",
-                     "df_spectra_list": "df_spectra_list"}
-              and gen is not None
-              and ast.unparse(gen.generators[0].iter) == "feat_slices"
-              and not gen.generators[0].ifs)
+        sf = prog.func(PIN + "drop_missing_values_and_fill_spectra_dataframe")
+        ba = prog.bind(sf, task[0])
+        kw = {k: T.of(v) for k, v in ba.items()}
+        p_reader, p_col, p_spec, p_list = sf.params
+        SL = kw[p_col][1] if kw.get(p_col, ("x",))[0] == "elem" else None
+        gen = cfg.enclosing(task[0], (ast.GeneratorExp, ast.ListComp))
+        ok_gen = gen is not None and len(gen.generators) == 1 and \
+            not gen.generators[0].ifs
+        bs = bound_args(prog, SL) if SL else None
+        ident = ("bin", "+", sp, ("list", (L["target_column"],)))
+        ok = (ok_gen and bs is not None
+              and SL[1] == PIN + "create_chunks_with_identifier"
+              and bs.get("data") == FEATS
+              and bs.get("identifier_column") == ident
+              and kw.get(p_spec) == ident
+              and kw.get(p_reader) == COLS[1])
+        why = (f"tasks over {show(SL, 160) if SL else None} with spectra="
+               f"{show(kw.get(p_spec), 100)}")
+        if isinstance(ba.get(p_list), ast.Name):
+            LIST_defs = {d.uid for d in du.defs_of(ba[p_list])}
+        if TASKS is not None and ok:
+            # the report is built from exactly these tasks
+            ok = any(x == T.of(task[0]) for x in walk_term(TASKS))
+            if not ok:
+                why = "the NaN report is not built from the scan tasks"
     ctx.check(ok, "C10d-every-column-chunk-scanned", f,
-              "one scan task per column chunk, with the same identifier "
-              "columns the chunks were built with",
-              "scan tasks do not cover feat_slices one to one", node=f.node)
+              "one scan task per column chunk (features plus identifier "
+              "columns), with the same identifier columns the chunks were "
+              "built with", why, node=f.node)
+    # ---- spectra dataframe: concatenation of the collected identifier
+    # chunks, labels converted
+    sd = got.get("spectra_dataframe")
+    ok = False
+    b = bound_args(prog, sd) if sd else None
+    if b is not None and sd[1] == "mokapot.utils.convert_targets_column":
+        data_t = b.get("data")
+        ok = b.get("target_column") == L["target_column"] and \
+            data_t is not None and callee_of(data_t) is not None and \
+            callee_of(data_t)[0] == "pandas.concat"
+        cats = [n for n in ast.walk(f.node) if isinstance(n, ast.Call)
+                and ast.unparse(n.func) in ("pd.concat", "pandas.concat")
+                and n.args and isinstance(n.args[0], ast.Name)]
+        ok = ok and len(cats) == 1 and LIST_defs is not None and bool(
+            LIST_defs & {d.uid for d in du.defs_of(cats[0].args[0])})
+        if ok and task:
+            # concatenated after all tasks have run
+            ok = cfg.every_path_passes(
+                cfg.entry.id, cfg.node_of(cfg.stmt_of(cats[0])).id,
+                {cfg.node_of(cfg.stmt_of(task[0])).id})
+    ctx.check(ok, "C10c-one-entry-per-row", f,
+              "the dataset's spectrum/label table is the concatenation of "
+              "all collected row chunks with converted labels",
+              f"spectra_dataframe = {show(sd, 200) if sd else None}",
+              node=ctor[0])
 
 
 def _nan_scan(ctx, f):
